@@ -34,6 +34,7 @@ fn judge(unit: &str, input: u64, loc: &mut Local) {
     let in_us: u128 = if unit == "ms" { input as u128 * 1000 } else { input as u128 };
     loc.evals += 1;
     loc.transitions += 1;
+    loc.traces += 1;
     loc.state(mix(input, per_sec), input % per_sec != 0);
     let r = catch(|| if unit == "ms" { DltTimeStamp::from_ms(input) } else { DltTimeStamp::from_us(input) });
     match r {
